@@ -68,6 +68,12 @@ pub struct Sc {
     /// The cache directory's path is not valid UTF-8 (a Latin-1 home directory name).
     #[serde(default)]
     pub odd_cache_dir: bool,
+    /// Symbolic links in the cache (a dot-file manager, a synchronised folder): 1 = every existing
+    /// year file is a link to a file in ~/sync; 2 = the cache directory itself is a link to
+    /// ~/sync/acb; 3 = as 1, and the year files the victim may write for the first time are dangling
+    /// links. 0 = none.
+    #[serde(default)]
+    pub linked_cache: u8,
     /// Set by minimisation: explore this single crash point only.
     pub only_state: Option<CrashPoint>,
     pub hash_seed: u64,
@@ -180,6 +186,15 @@ pub fn generate(seed: u64, tier: Tier) -> Sc {
         only_state: None,
         junk_files: r.chance(1, 4),
         odd_cache_dir: r.chance(1, 8),
+        linked_cache: {
+            // (its own stream: the rest of the scenario is what it was before this knob existed)
+            let mut rl = Rng::new(crate::prng::mix(seed, 0x11CC, 14));
+            if rl.chance(1, 6) {
+                rl.range(1, 3) as u8
+            } else {
+                0
+            }
+        },
         hash_seed: r.next_u64(),
         pre_crash_clock_ahead: if r.chance(1, 2) { *r.pick(&[3i64, 10, 25, 60]) } else { 0 },
     }
@@ -629,6 +644,57 @@ impl Engine for C14 {
                 w.fs.disk.put_file(&format!("{}/{}", legacy, base), &data);
             }
         });
+        if sc.linked_cache > 0 {
+            with_world(|w| {
+                let dir = cache_dir_key();
+                let d = &mut w.fs.disk;
+                if sc.linked_cache == 2 {
+                    // the whole directory lives elsewhere
+                    let prefix = format!("{}/", dir);
+                    let moved: Vec<(String, u64)> = d.names.iter().filter(|(p, _)| p.starts_with(&prefix)).map(|(p, i)| (p.clone(), *i)).collect();
+                    d.put_dir("/simfs/home/sync/acb");
+                    for (p, ino) in moved {
+                        d.names.remove(&p);
+                        d.names.insert(format!("/simfs/home/sync/acb/{}", &p[prefix.len()..]), ino);
+                    }
+                    if let Some(ino) = d.names.remove(dir) {
+                        d.inodes.remove(&ino);
+                    }
+                    d.put_symlink(&dir, "/simfs/home/sync/acb");
+                } else {
+                    d.put_dir("/simfs/home/sync");
+                    let is_year_file = |n: &str| n.starts_with("rates-") && n.ends_with(".csv") && n.len() == "rates-2020.csv".len();
+                    for (name, data) in d.list_files(&dir) {
+                        if is_year_file(&name) {
+                            d.remove_file_quietly(&format!("{}/{}", dir, name));
+                            d.put_file(&format!("/simfs/home/sync/{}", name), &data);
+                            // relative and absolute targets both occur
+                            let target = if sc.cut_seed % 2 == 0 { format!("../sync/{}", name) } else { format!("/simfs/home/sync/{}", name) };
+                            d.put_symlink(&format!("{}/{}", dir, name), &target);
+                        }
+                    }
+                    if sc.linked_cache == 3 {
+                        let mut years: BTreeSet<i32> = BTreeSet::new();
+                        years.insert(pd(&sc.victim.lookup).year());
+                        for m in &sc.victim.more {
+                            years.insert(pd(m).year());
+                        }
+                        for y in years {
+                            let name = format!("rates-{}.csv", y);
+                            if d.lookup(&format!("{}/{}", dir, name)).is_none() {
+                                d.put_dir(&dir);
+                                d.put_symlink(&format!("{}/{}", dir, name), &format!("/simfs/home/sync/{}", name));
+                            }
+                        }
+                    }
+                }
+            });
+            st.bump(match sc.linked_cache {
+                2 => "probe.cache_directory_is_a_symbolic_link",
+                3 => "probe.cache_year_files_are_symbolic_links_some_dangling",
+                _ => "probe.cache_year_files_are_symbolic_links",
+            });
+        }
         let d0 = with_world(|w| w.fs.disk.clone());
         let victim = run_step(&boc, &sc.victim, sc.max_write, sc.hash_seed);
         st.bump("sim.processes");
@@ -935,6 +1001,11 @@ impl Engine for C14 {
         if sc.odd_cache_dir {
             let mut s = sc.clone();
             s.odd_cache_dir = false;
+            c.push(s);
+        }
+        if sc.linked_cache > 0 {
+            let mut s = sc.clone();
+            s.linked_cache = 0;
             c.push(s);
         }
         if sc.second_crash_every > 0 {
